@@ -91,6 +91,7 @@ func runC16(seed uint64, enum bool) {
 		}
 	}
 	w := newWorld(seed, "C16", name)
+	w.wedgeIsViolation = true
 	faults := p.cfg("faults") == 1
 	w.res.Class = map[bool]string{true: "faults", false: "fault-free"}[faults]
 	if enum {
